@@ -4,6 +4,7 @@ Tokens are separated by single spaces: decimal integers, `x<hex>` byte strings (
 length-prefixed lists (`n e1 … en`).
 -/
 import Essential.Model.Basic
+import Essential.Model.Hex
 import Essential.Gen.Spec
 
 namespace Driver
@@ -15,19 +16,6 @@ def tok : Parser String := fun s => match s with | [] => none | t :: r => some (
 def int : Parser Int := do let t ← tok; match t.toInt? with | some i => pure i | none => failure
 def nat : Parser Nat := do let t ← tok; match t.toNat? with | some i => pure i | none => failure
 def done : Parser Unit := fun s => match s with | [] => some ((), []) | _ => none
-
-def hexVal (c : Char) : Option Nat :=
-  if '0' ≤ c ∧ c ≤ '9' then some (c.toNat - '0'.toNat)
-  else if 'a' ≤ c ∧ c ≤ 'f' then some (c.toNat - 'a'.toNat + 10)
-  else if 'A' ≤ c ∧ c ≤ 'F' then some (c.toNat - 'A'.toNat + 10)
-  else none
-
-def parseHex : List Char → Option (List Nat)
-  | [] => some []
-  | a :: b :: rest => do
-    let x ← hexVal a; let y ← hexVal b; let r ← parseHex rest
-    pure ((x * 16 + y) :: r)
-  | _ => none
 
 def bytes : Parser (List Nat) := do
   let t ← tok
@@ -43,9 +31,7 @@ def listOf (p : Parser α) : Parser (List α) := do let n ← nat; rep p n
 
 def words : Parser (List Int) := listOf int
 
-def hexDigit (n : Nat) : Char := if n < 10 then Char.ofNat (48 + n) else Char.ofNat (87 + n)
-def hexOfBytes (bs : List Nat) : String :=
-  String.ofList ('x' :: bs.flatMap fun b => [hexDigit (b / 16 % 16), hexDigit (b % 16)])
+def hexOfBytes (bs : List Nat) : String := String.ofList ('x' :: hexChars bs)
 
 def showWords (ws : List Int) : String :=
   "[" ++ ",".intercalate (ws.map toString) ++ "]"
